@@ -22,6 +22,7 @@ Two parts, both specification -> code (behaviour replay):
 """
 import json
 import re
+import time
 
 import vlib
 import storelib
@@ -38,7 +39,7 @@ CFGS = {
     "thorough": [("c14-a", dict(BadMode='"type-size"', MaxStmts=4, MaxRows=3, MaxFlush=1, Tables='{"t1", "t2"}', Vals="{1}"), 80000),
                  ("c14-b", dict(BadMode='"count-range"', MaxStmts=4, MaxRows=3, MaxFlush=1, Tables='{"t1"}', Vals="{1, 2}"), 60000),
                  ("c14-c", dict(BadMode='"all"', MaxStmts=3, MaxRows=4, MaxFlush=0, Tables='{"t1"}', Vals="{1}"), 60000),
-                 ("c14-n", dict(BadMode='"type-size"', MaxStmts=6, MaxRows=2, MaxFlush=1, Tables='{"t1"}', Vals="{1, 2, 9}", Wheres="{0, 1, 101, 102}"), 80000)],
+                 ("c14-n", dict(EmitMod=14, BadMode='"type-size"', MaxStmts=6, MaxRows=2, MaxFlush=1, Tables='{"t1"}', Vals="{1, 2, 9}", Wheres="{0, 1, 101, 102}"), 80000)],
 }
 
 
@@ -156,6 +157,7 @@ class MixStats(vs.Stats):
 
 def run_valuestore(ctx, cov):
     """Part 2: mixed-outcome UPDATEs of ValueStore.tla replayed through C08's scenario runner, judged as C14."""
+    t0 = time.time()
     binary = vlib.build_harness(ctx, "valstore")
     vcov = vs.new_cov()
     vcov["rule"] = ("one evaluation = one TLC-generated ValueStoreMC scenario (MixedUpd = TRUE; inserts, an UPDATE without WHERE that some or all "
@@ -168,6 +170,7 @@ def run_valuestore(ctx, cov):
         vcov["failing_signatures"] = sorted(failing)
     finally:
         pool.close()
+    vcov["wall_s"] = round(time.time() - t0, 1)
     vcov["text_skipped"] = st.skips
     vcov["executed"] = st.executed
     vcov["mixed_refused_updates_replayed"] = {p: dict(st.mixed[p], total=sum(st.mixed[p].values())) for p in st.mixed}
